@@ -59,7 +59,7 @@ def effect_check(LS):
     return bad
 
 
-def run_init(mutate=None, prefixes=("C",)):
+def run_init(mutate=None, prefixes=("C",), seeded=False):
     LS, LD = load(mutate)
     Solver = LS["TDGLSolver"]
     Device = LD["Device"]
@@ -145,8 +145,20 @@ def run_init(mutate=None, prefixes=("C",)):
             def set_link_exponents(self_, A):
                 self_.log.append(("link", A))
         LS.ns["MeshOperators"] = OpsStub
+        seed_kw = {}
+        if seeded:
+            # a seed solution (any earlier run on this device): the constructor may keep it, nothing in it may change the step-size settings
+            seed_dt = SR(R("seed_last_dt"))
+            assume(seed_dt > 0)
+            sdata = type("SeedData", (), {})()
+            sdata.state = {"dt": seed_dt, "step": SI(z3.Int("seed_step")), "time": SR(R("seed_time"))}
+            for nm_ in ("psi", "mu", "supercurrent", "normal_current", "induced_vector_potential", "applied_vector_potential"):
+                setattr(sdata, nm_, SymArray.input("seed_" + nm_, (N,) if nm_ in ("psi", "mu") else ((E,) if "current" in nm_ else (E, 2)), "c" if nm_ == "psi" else "r"))
+            seed_obj = type("SeedSolution", (), {})()
+            seed_obj.device, seed_obj.tdgl_data = dev, sdata
+            seed_kw = dict(seed_solution=seed_obj)
         try:
-            s = Solver(dev, o, applied_vector_potential=A_func, terminal_currents={"src": I_s, "drn": I_d}, disorder_epsilon=eps0)
+            s = Solver(dev, o, applied_vector_potential=A_func, terminal_currents={"src": I_s, "drn": I_d}, disorder_epsilon=eps0, **seed_kw)
         except ValueError as e:
             msg = str(e)
             kind = ("epsilon" if "epsilon" in msg else "currents" if "terminal currents" in msg or "sum of all" in msg else
